@@ -202,4 +202,13 @@ def run(ctx, tier):
     update_rule(ctx, I)
     writers_rule(ctx, I)
     geometry_rule(ctx)
-    ctx.assume('containsRegion is sound (C17); regions are only reachable through the state list')
+    # the containment predicates the guard relies on (same rules as C17.R1/R3/R4)
+    from . import rules_c17
+    rules_c17.declare(ctx)
+    I17 = make_interp(ctx.model, modular=False)
+    I17.merge_ifs = False
+    rules_c17.point_rules(ctx, I17)
+    rules_c17.ctor_rules(ctx, I17)
+    rules_c17.region_rules(ctx, I17)
+    rules_c17.exhaustive_rule(ctx, I17)
+    ctx.assume('regions are only reachable through the state list; convexity argument of C17 not decided')
